@@ -225,6 +225,29 @@ fn oracle(c: &Case, st: &mut Stats) -> Result<(), String> {
     }
     finals_by_server.push(fin);
   }
+  // servers that live one after the other (each dropped before the next is created, so they may
+  // occupy the same memory): independently keyed, so their evaluations of the SAME point under the
+  // same tag differ from each other, and each equals what a fresh exchange with that server gives
+  if let Some(hb) = &h_point {
+    let h = point_from(hb);
+    let mut seen: Vec<[u8; 32]> = Vec::new();
+    for round in 0..3 {
+      let s = Server::new(registration_list(&c.mds)).map_err(|e| e.to_string())?;
+      let direct = *s.eval(&h, md, false).map_err(|e| e.to_string())?.output.as_bytes();
+      st.evals(1);
+      if seen.contains(&direct) {
+        return Err(format!("server number {round} of a succession of independently keyed servers repeated an earlier server's evaluation of the same point (tag {md})"));
+      }
+      seen.push(direct);
+      let mut fin_direct = [0u8; 32];
+      Client::finalize(&c.input, md, &point_from(&direct), &mut fin_direct);
+      let fin_exchange = crate::starx::ppoprf_exchange(&s, md, &c.input, c.verifiable)?;
+      if fin_direct != fin_exchange {
+        return Err(format!("server number {round} of a succession: its evaluation of the input point and a full exchange with it give different outputs (tag {md})"));
+      }
+    }
+    st.class("successive-servers");
+  }
   // a server that has already served requests adopts the first server's key
   // (export -> restore): from then on it is the same (key, tag, input)
   if servers.len() >= 2 {
@@ -306,7 +329,7 @@ pub fn property() -> Property {
   Property {
     id: "C12",
     level: "exploration",
-    rule: "generated (input bytes incl. empty and up to 4 kB quick / 64 kB thorough, tag sets incl. 0 / 255 / adjacent tags up to 256 tags, 1-3 independently keyed servers, 2-6 repeated requests, verifiable or not). Oracle: unblind(blind(x)) is one point H for all requests; unblind(eval(blind(x), tag)) = eval(H, tag) for every request; finalize is identical across requests, differs across two tags, two inputs, two servers; blinded requests are pairwise different and differ from H; blinding scalars are not 0 or 1; the same equation for caller-chosen blindings l-k, 2^252+k, k, 2^i and uniform ones, applied to H in the harness and handed to unblind as scalar and as bytes. Non-trivial: >= 2 requests for one (server, tag, input) with at least one cross comparison (every case); distinct by (input, tag set, tag, servers, requests, mode).",
+    rule: "generated (input bytes incl. empty and up to 4 kB quick / 64 kB thorough, tag sets incl. 0 / 255 / adjacent tags up to 256 tags, 1-3 independently keyed servers, 2-6 repeated requests, verifiable or not). Oracle: unblind(blind(x)) is one point H for all requests; unblind(eval(blind(x), tag)) = eval(H, tag) for every request; finalize is identical across requests, differs across two tags, two inputs, two servers; blinded requests are pairwise different and differ from H; blinding scalars are not 0 or 1; three servers created and dropped one after the other evaluate the input point to three different values, each consistent with a full exchange; the same equation for caller-chosen blindings l-k, 2^252+k, k, 2^i and uniform ones, applied to H in the harness and handed to unblind as scalar and as bytes. Non-trivial: >= 2 requests for one (server, tag, input) with at least one cross comparison (every case); distinct by (input, tag set, tag, servers, requests, mode).",
     assumptions: vec!["blinding scalars and server keys come from OsRng; each case samples them", "unlinkability is only sampled through freshness of the blinded points"],
     subs: vec![prop_sub("obliviousness", 3000, 150000, strat, oracle)],
   }
